@@ -7,12 +7,13 @@ Open Scope N_scope.
 
 Definition s2b (s : string) : list byte := list_byte_of_string s.
 
+(* rev_append, not rev: List.rev is quadratic and a token can be a 64 KiB message in hexadecimal *)
 Definition is_space (b : byte) : bool := match b with x20 | x09 | x0a | x0d => true | _ => false end.
 Fixpoint split_ws (l cur : list byte) : list (list byte) :=
   match l with
-  | [] => match cur with [] => [] | _ => [rev cur] end
+  | [] => match cur with [] => [] | _ => [rev_append cur []] end
   | b :: r => if is_space b
-              then match cur with [] => split_ws r [] | _ => rev cur :: split_ws r [] end
+              then match cur with [] => split_ws r [] | _ => rev_append cur [] :: split_ws r [] end
               else split_ws r (b :: cur)
   end.
 Definition tokens (l : list byte) : list (list byte) := split_ws l [].
